@@ -190,11 +190,20 @@ func subWriterReset() mon.Sub {
 				hdst.Err = errors.New("boom")
 			}
 			var a *wsutil.Writer
+			var arenaNeighbours func() string
+			arenaLen := 0
 			if mode == "PutGet" && c.Rng.Intn(2) == 0 {
 				a = wsutil.GetWriter(hdst, hcfg.state(), ws.OpCode(hcfg.op), 128<<uint(c.Rng.Intn(4)))
 			} else if mode == "PutGet" {
 				// a writer that was NOT born in the pool is handed to PutWriter as well
 				a = wsutil.NewWriterSize(hdst, hcfg.state(), ws.OpCode(hcfg.op), []int{100, 120, 130, 200, 500, 1000, 2000, 5000}[c.Rng.Intn(8)])
+			} else if c.Rng.Intn(3) == 0 {
+				// a writer built on the application's own buffer, a slice CUT OUT of something larger: its length
+				// is the writer's for good; what follows it in the arena (its spare capacity) never is
+				var view []byte
+				view, _, arenaNeighbours = xport.Arena3(make([]byte, size+14))
+				arenaLen = len(view)
+				a = wsutil.NewWriterBuffer(hdst, hcfg.state(), ws.OpCode(hcfg.op), view)
 			} else {
 				a = wsutil.NewWriterSize(hdst, hcfg.state(), ws.OpCode(hcfg.op), size)
 			}
@@ -208,7 +217,9 @@ func subWriterReset() mon.Sub {
 				a.DisableFlush()
 			}
 			hops := randOps(c, c.Rng.Intn(8))
+			size0 := a.Size()
 			hist := trace(a, hdst, hops, 0, c.Rng.Int63())
+			grew := a.Size() != size0
 			// the configuration after the reset
 			ncfg := wcfg{side: ref.Side(c.Rng.Intn(3)), op: []byte{ref.OpText, ref.OpBinary}[c.Rng.Intn(2)], flags: stateFlags[c.Rng.Intn(4)]}
 			adst, bdst := xport.NewRec(), xport.NewRec()
@@ -217,7 +228,16 @@ func subWriterReset() mon.Sub {
 			switch mode {
 			case "Reset":
 				a.Reset(adst, ncfg.state(), ws.OpCode(ncfg.op))
-				b = freshLike(a, bdst, ncfg)
+				if arenaLen > 0 && !grew {
+					// (the history never grew the buffer:) the twin is a new writer on a buffer of the length the
+					// application GAVE
+					func() {
+						defer func() { recover() }()
+						b = wsutil.NewWriterBuffer(bdst, ncfg.state(), ws.OpCode(ncfg.op), make([]byte, arenaLen))
+					}()
+				} else {
+					b = freshLike(a, bdst, ncfg)
+				}
 			case "PutGet":
 				sz := a.Size()
 				wsutil.PutWriter(a)
@@ -294,7 +314,13 @@ func subWriterReset() mon.Sub {
 					map[string]interface{}{"mode": mode, "history_config": fmt.Sprintf("%+v size=%d failing_dest=%v", hcfg, size, failing), "history": hist, "new_config": fmt.Sprintf("%+v", ncfg), "reused": x, "fresh": y, "op_index": i})
 				return
 			}
-			c.Classf("%s|hist=%d|fail=%v|noflush=%v|ext=%v|side%d->%d|same=%v", mode, len(hops), failing, hcfg.noFlush, hcfg.ext, hcfg.side, ncfg.side, sameObject)
+			if arenaNeighbours != nil {
+				if w := arenaNeighbours(); w != "" {
+					c.Fail("writer/"+mode+"/outside-callers-buffer", "a writer built with NewWriterBuffer on a slice of a larger buffer: "+w, map[string]interface{}{"mode": mode, "history": hist, "buffer_len": arenaLen})
+					return
+				}
+			}
+			c.Classf("%s|hist=%d|fail=%v|noflush=%v|ext=%v|side%d->%d|same=%v|arena=%v", mode, len(hops), failing, hcfg.noFlush, hcfg.ext, hcfg.side, ncfg.side, sameObject, arenaLen > 0)
 			if mode == "PutGet" && sameObject {
 				c.Run.AddExtra("putget_same_object_returned", 1)
 			}
